@@ -26,7 +26,8 @@ def run_one(prog, shared, out, idx, barrier, profiling):
         crash = None
     except BaseException as e:
         crash = "%s: %s" % (type(e).__name__, e)
-    out[idx] = {"events": run.events, "crash": crash, "nprof": getattr(run, "nprof", -1)}
+    run.finished = True
+    out[idx] = {"events": list(run.events), "crash": crash, "nprof": getattr(run, "nprof", -1)}
 
 
 HUNG = [False]
